@@ -55,7 +55,7 @@ fn real_main(args: &[String]) -> i32 {
             };
             let seed: u64 = std::env::var("VERIF_SEED").ok().and_then(|s| s.parse().ok()).unwrap_or(1);
             let mut runs = None;
-            let mut workers = std::thread::available_parallelism().map(|n| n.get()).unwrap_or(8);
+            let mut workers = std::env::var("VERIF_WORKERS").ok().and_then(|s| s.parse().ok()).unwrap_or_else(|| std::thread::available_parallelism().map(|n| n.get()).unwrap_or(8));
             let mut i = 4;
             while i + 1 < args.len() {
                 match args[i].as_str() {
